@@ -56,7 +56,7 @@ type fnFact struct {
 	root         bool
 }
 
-type callSite struct {
+type heldCallSite struct {
 	caller int
 	callee string
 	held   bool
@@ -128,7 +128,7 @@ type accessWalker struct {
 	closures map[string]string // guarded-unlock closure name -> ue identifier
 	held     map[string]bool
 	fact     *fnFact
-	calls    *[]callSite
+	calls    *[]heldCallSite
 	lits     int // depth of function literals
 }
 
@@ -173,7 +173,7 @@ func (w *accessWalker) expr(n ast.Node) {
 				name = f.Sel.Name
 			}
 			if name != "" && name != "Lock" && name != "Unlock" {
-				*w.calls = append(*w.calls, callSite{caller: w.fact.id, callee: name, held: w.anyHeld()})
+				*w.calls = append(*w.calls, heldCallSite{caller: w.fact.id, callee: name, held: w.anyHeld()})
 			}
 		}
 		return true
@@ -485,7 +485,7 @@ func counterKind(fd *ast.FuncDecl, file string, out *[]counterSite) {
 func stateAccessTables() string {
 	fields := ueFields()
 	var facts []*fnFact
-	var calls []callSite
+	var calls []heldCallSite
 	var counters []counterSite
 	for _, dir := range stateDirs {
 		ents, err := os.ReadDir(filepath.Join(repoRoot(), dir))
